@@ -500,6 +500,10 @@ class Interp:
         key = self.strip_generics(callee)
         key = re.sub(r"'\w+", "'_", key)
         key = re.sub(r'::<(&mut |&)?impl .*>$', '', key)
+        if key.startswith('<Self as ') and args:
+            a0 = args[0]
+            while isinstance(a0, Ref): a0 = a0.get()
+            if isinstance(a0, Agg): key = '<' + a0.name.split('::')[-1] + key[5:]
         ctx.cur_key = key
         if key in self.models:
             return self.models[key](self, ctx, *args)
